@@ -6,14 +6,16 @@
    dfun : winner tally -> loser tally -> total -> Q (antitone or not; the two shipped ones, cp_q / bp_q, are shown
    antitone in the margin in RaireCheck_proofs.cp_q_antitone / bp_q_antitone): the executable `opt` IS that minimum.
    The search algorithm (branch-and-bound with diving in compute_raire_assertions) is modelled (RaireAlgo.raire, tied
-   output-for-output to the code) and proved SOUND (PC04.v C04_algo_output_checked; below: its largest difficulty is
-   >= opt), but its OPTIMALITY (largest difficulty <= opt) is not proved about the model;
-   on every run each output of the implementation is compared with this verified optimum
-   (harness/c15.py -> Run_Raire.agree_c15: exactly when a Fraction-valued difficulty function is passed to the real
-   code, within 2^-30 for the shipped float functions), and C04's verified check_output shows the returned set is
-   itself a sufficient set of true assertions, so by the second clause below its largest difficulty can only be
-   >= opt; equality is what the run-time comparison establishes per output (DESIGN section 4 table, row C04/C15). *)
-From SV Require Import RaireCheck RaireCheck_proofs RaireAlgo RaireAlgo_proofs RaireAlgo_inv.
+   output-for-output to the code on every run by Run_Raire.agree_algo) and C15 is PROVED about the model
+   (C15_algo_optimal below): for every fuel that is not exhausted, duplicate-free candidate list, profile, total,
+   reported winner, order hint, and every difficulty function whose values on true comparisons are >= the initial
+   lower bound -10 (dfun_lb; proved for both shipped functions, so C15_algo_optimal_cp / _bp carry no hypothesis on
+   the function): a non-empty result has largest difficulty EQUAL to `opt`.  Termination is proved in PC04.v
+   (C04_algo_terminates / C04_algo_total_correct); more fuel never changes a result (C15_algo_fuel_mono).  Not proved:
+   that the constant RaireAlgo.default_fuel is large enough — exhaustion is reported as a disagreement on every run.  The implementation itself is additionally compared with `opt` per output
+   (harness/c15.py -> Run_Raire.agree_c15: exactly with Fraction-valued difficulty functions, within 2^-30 for the
+   shipped float ones; DESIGN section 4 table, row C04/C15). *)
+From SV Require Import RaireCheck RaireCheck_proofs RaireAlgo RaireAlgo_proofs RaireAlgo_inv RaireAlgo_complete RaireAlgo_opt RaireAlgo_fuel.
 Open Scope nat_scope.
 
 Theorem C15_opt_is_minimax : forall (dfun : nat -> nat -> nat -> Q) cands p tot winner,
@@ -42,11 +44,47 @@ Proof. exact opt_le_iff. Qed.
 Print Assumptions C15_opt_least_threshold.
 
 (* ---- about the model of the search itself (RaireAlgo.raire, tied output-for-output to compute_raire_assertions by
-   Run_Raire.agree_algo): every difficulty it reports is the difficulty function applied to the reported tallies, and a
-   non-empty result is a sufficient set of true assertions, so an audit is possible (opt <> Top) and the largest
-   reported difficulty is AT LEAST the optimum.  The other inequality (the search never does worse than opt, i.e.
-   the branch-and-bound bookkeeping `lowerbound <= opt`) is NOT proved about the model; it is established per output
-   on every run by comparing the implementation's largest difficulty with the verified `opt` (agree_c15). *)
+   Run_Raire.agree_algo).  Proof idea of optimality (RaireAlgo_opt.v): find_best_audit returns the cheapest assertion
+   it considers and meets every true assertion contradicting an order at the suffix starting at its winner; the best
+   ancestor carries the least estimate along the chain of suffixes, so the lower bound is only ever raised to the
+   cheapest way of excluding some complete order, hence stays <= opt; the frontier is ordered so that, when its head
+   is a leaf, every entry costs at most the head; leaves cost at most opt. *)
+Theorem C15_algo_optimal :
+  forall fuel dfun cands p tot winner hint out,
+    NoDup cands -> dfun_lb dfun tot ->
+    raire fuel dfun cands p tot winner hint = Some out -> out <> [] ->
+    exists d, opt dfun cands p tot winner = Val d /\
+              (forall a tw tl q, In (a, tw, tl, q) out -> (q <= d)%Q) /\
+              (exists a tw tl q, In (a, tw, tl, q) out /\ (d <= q)%Q).
+Proof. exact raire_model_optimal. Qed.
+Print Assumptions C15_algo_optimal.
+
+Theorem C15_algo_optimal_cp :
+  forall fuel cands p tot winner hint out,
+    NoDup cands -> raire fuel cp_q cands p tot winner hint = Some out -> out <> [] ->
+    exists d, opt cp_q cands p tot winner = Val d /\
+              (forall a tw tl q, In (a, tw, tl, q) out -> (q <= d)%Q) /\
+              (exists a tw tl q, In (a, tw, tl, q) out /\ (d <= q)%Q).
+Proof. exact raire_model_optimal_cp. Qed.
+Print Assumptions C15_algo_optimal_cp.
+
+Theorem C15_algo_optimal_bp :
+  forall fuel cands p tot winner hint out,
+    NoDup cands -> raire fuel bp_q cands p tot winner hint = Some out -> out <> [] ->
+    exists d, opt bp_q cands p tot winner = Val d /\
+              (forall a tw tl q, In (a, tw, tl, q) out -> (q <= d)%Q) /\
+              (exists a tw tl q, In (a, tw, tl, q) out /\ (d <= q)%Q).
+Proof. exact raire_model_optimal_bp. Qed.
+Print Assumptions C15_algo_optimal_bp.
+
+Theorem C15_algo_fuel_mono :
+  forall f f' dfun cands p tot winner hint out,
+    raire f dfun cands p tot winner hint = Some out -> f <= f' ->
+    raire f' dfun cands p tot winner hint = Some out.
+Proof. exact raire_fuel_mono. Qed.
+Print Assumptions C15_algo_fuel_mono.
+
+(* the reported difficulties are the difficulty function applied to the reported tallies *)
 Theorem C15_algo_difficulties :
   forall fuel dfun cands p tot winner hint out,
     raire fuel dfun cands p tot winner hint = Some out ->
@@ -54,17 +92,6 @@ Theorem C15_algo_difficulties :
 Proof. exact raire_model_difficulties. Qed.
 Print Assumptions C15_algo_difficulties.
 
-Theorem C15_algo_max_ge_opt_partial :
-  forall fuel dfun cands p tot winner hint out,
-    NoDup cands ->
-    raire fuel dfun cands p tot winner hint = Some out -> out <> [] ->
-    match opt dfun cands p tot winner with
-    | Val d0 => exists a tw tl d, In (a, tw, tl, d) out /\ (d0 <= d)%Q
-    | Top => False
-    | Bot => True
-    end.
-Proof. exact raire_model_max_ge_opt. Qed.
-Print Assumptions C15_algo_max_ge_opt_partial.
 
 (* ---- non-vacuity *)
 Definition ex_cands : list cand := [0; 1; 2].
@@ -78,3 +105,11 @@ Example ex_opt : opt cp_q ex_cands ex_profile 10 0 = Val (10 # 1)
               /\ opt cp_q ex_cands ex_profile 10 2 = Top
               /\ opt cp_q [0] [[0]] 1 0 = Bot.
 Proof. vm_compute. repeat split; reflexivity. Qed.
+(* the model of the search on the example: non-empty, and its largest difficulty is the optimum 10 (cp) *)
+Example ex_algo_optimal :
+  match raire (default_fuel ex_cands) cp_q ex_cands ex_profile 10 0 [] with
+  | Some out => negb (Nat.eqb (length out) 0) && forallb (fun r => Qle_bool (snd r) (10 # 1)) out
+                && existsb (fun r => Qle_bool (10 # 1) (snd r)) out
+  | None => false
+  end = true.
+Proof. vm_compute. reflexivity. Qed.
